@@ -2,6 +2,7 @@ import Kopf.Drv.Json
 import Kopf.Model.C12_Request
 import Kopf.Model.C12_Throttle
 import Kopf.Model.C12_Process
+import Kopf.Model.C12_Patch
 import Kopf.Model.C12_Vault
 open Lean
 namespace Kopf.Drv.C12
@@ -237,6 +238,34 @@ def handle : DrvHandler := fun op args =>
       some (ok (.arr (outs.map (fun o => Json.mkObj [
         ("times", match o.run with | some r => jInts r.times | none => .null),
         ("outcome", match o.run with | some r => outcomeJ r.outcome | none => .null),
+        ("fin", match o.run with | some r => jInt r.fin | none => .null),
+        ("activated", jOptInt o.out.activated), ("escaped", .str (escStr o.out.escaped)),
+        ("until", jOptInt o.out.st.activeUntil)])).toArray))
+  | "C12.objectP", [cfg, delays, passes] => do
+      -- the cycles of one object whose API work is one `patch_obj` each (part S): start time, the calls made
+      -- (kind, the fault script each met), the wake-up into the pause; from a fresh throttler
+      let bo ← backoffsOf? (← jField? cfg "backoffs")
+      let enforce ← jBool? (← jField? cfg "enforce")
+      let dl ← delaysOf? delays
+      let kindOf? : String → Option PKind := fun
+        | "merge-body" => some .mergeBody | "merge-status" => some .mergeStatus
+        | "json-body" => some .jsonBody | "json-status" => some .jsonStatus | _ => none
+      let ps ← (← jArr? passes).mapM (fun p => do
+        let t ← jInt? (← jField? p "t")
+        let calls ← (← jArr? (← jField? p "calls")).mapM (fun c => do
+          let k ← jStr? (← jField? c "kind") >>= kindOf?
+          let script ← (← jArr? (← jField? c "script")).mapM attOf?
+          some (k, script))
+        let w2 ← jOpt? jNat? (← jField? p "wake2")
+        some (t, calls, (none : Option Nat), w2))
+      let outs := processCyclesP patchCatch bo enforce dl Throttler.fresh ps
+      let endStr : PEnd → String := fun
+        | .applied => "applied" | .gone => "gone" | .postponed => "postponed" | .raised c => "raised:" ++ clsStr c
+      some (ok (.arr (outs.map (fun o => Json.mkObj [
+        ("calls", match o.run with
+          | some r => .arr (r.runs.map (fun x => Json.mkObj [("times", jInts x.times), ("outcome", outcomeJ x.outcome)])).toArray
+          | none => .null),
+        ("ending", match o.run with | some r => .str (endStr r.ending) | none => .null),
         ("fin", match o.run with | some r => jInt r.fin | none => .null),
         ("activated", jOptInt o.out.activated), ("escaped", .str (escStr o.out.escaped)),
         ("until", jOptInt o.out.st.activeUntil)])).toArray))
